@@ -330,6 +330,44 @@ def run_real(trace, nthreads, rounds, timeout=8.0):
     return postcondition(f, orig, threads, errors)
 
 
+def run_special(case):
+    """Validate the sequentialised model against the implementation: sampled schedules are run both as virtual
+    threads and, gated step by step, on real OS threads; the verdicts must agree."""
+    import random
+    import time
+
+    p = case["params"]
+    rnd = random.Random(p["seed"])
+    t0 = time.perf_counter()
+    agree, disagreements, samples = 0, [], []
+    n = 0
+    while n < p["n"]:
+        nthreads, rounds = (2, [1, 1]) if n % 2 == 0 else (2, [1, 2])
+        length = 160 if rounds == [1, 1] else 235
+        a = rnd.randrange(0, length - 2)
+        b = rnd.randrange(a + 1, length)
+        plan = [(a, None), (b, None)]
+        v, tr = run_virtual(plan, nthreads, rounds)
+        if v == "not-a-schedule":
+            continue
+        n += 1
+        r = run_real(tr, nthreads, rounds)
+        same = (v is None and r is None) or (v is not None and r is not None and not isinstance(r, str))
+        if same:
+            agree += 1
+        else:
+            disagreements.append({"plan": plan, "virtual": v and v[0], "real": r if isinstance(r, str) else (r and r[0])})
+        if len(samples) < 3:
+            samples.append({"preemptions_at": [a, b], "rounds": rounds, "steps": len(tr), "virtual": v and v[0],
+                            "real": r if isinstance(r, str) else (r and r[0])})
+    res = {"paths": n, "confirmed": agree, "refuted": 0, "unknown": len(disagreements), "ignored": 0, "exhausted": not disagreements,
+           "timed_out": False, "z3_calls": 0, "z3_secs": 0.0, "obligations": n, "validated_concretely": agree, "counterexamples": [],
+           "samples": samples, "queries": {"schedules_run_on_real_threads": n, "agreeing": agree, "disagreements": disagreements[:5]}}
+    if disagreements:
+        raise RuntimeError(f"sequentialised model and real threads disagree: {disagreements[:3]}")
+    return res
+
+
 def build(case):
     from crosshair.tracers import NoTracing, is_tracing
     from pv.engine.xsym import assume, int_harness, pick, require
@@ -402,6 +440,7 @@ def cases(tier, seed):
         shards("2thr-rounds12-P2", {"threads": 2, "rounds": [1, 2], "P": 2}, 8, 256, 20000)
         shards("2thr-rounds22-P2", {"threads": 2, "rounds": [2, 2], "P": 2}, 8, 336, 20000)
         shards("3thr-1round-P2", {"threads": 3, "rounds": [1, 1, 1], "P": 2}, 8, 256, 20000)
+    cs.append({"id": "validate-model-on-real-threads", "kind": "special", "params": {"n": 40 if th else 12, "seed": seed}})
     cs.append({"id": "2thr:twin", "params": {"threads": 2, "rounds": [1, 1], "P": 2, "lo": 0, "hi": 11, "maxpos": 176},
                "vacuity_twin": True, "stop_on_refute": True, "budget_s": 100})
     return cs
